@@ -36,7 +36,7 @@ def gen_case(rng):
     k = rng.randrange(nd)
     if what in ('argaxis', 'argwhole', 'argties', 'cumsum', 'cumprod', 'cumdefault'):
         gen.make_huge(sp, rng)
-    c = {"what": what, "a": sp, "k": k, "by_pos": rng.random() < 0.5}
+    c = {"what": what, "a": sp, "k": k, "by_pos": rng.random() < 0.5, "neg_pos": rng.random() < 0.3}
     if what == 'cumprod':
         sp["values"] = (sp["values"] % 5 + 1).astype(sp["values"].dtype)
     if what in ('cumsum', 'cumprod', 'cumdefault', 'diff') and rng.random() < 0.25:
@@ -84,7 +84,7 @@ def check(case, ctx):
     nd = m.ndim
     what = case["what"]
     k = case["k"]
-    axis = k if case["by_pos"] else m.dims[k]
+    axis = (k - nd if case.get("neg_pos") and what != 'diff' else k) if case["by_pos"] else m.dims[k]
     base = " on %s%s dims=%r labels[%d]=%s" % (v.dtype, v.shape, m.dims, k, codec.short(m.labels[k], 80))
     if what in ('cumsum', 'cumprod', 'cumdefault'):
         f = 'cumsum' if what == 'cumdefault' else what
